@@ -190,10 +190,24 @@ func c15Child(scPath string) int {
 					}
 				}
 			}
-			for id, u := range handed {
+			// the obligation is over the seeds Zeno actually received (hq.before_insert): a GET the HQ
+			// answered after the client had timed out claims URLs on the server that never reached the
+			// crawler, and no crawler can acknowledge those
+			received := map[string]string{}
+			for _, e := range evs {
+				if e.Point == "hq.before_insert" {
+					received[e.ID] = strings.SplitN(e.URL, "\t", 2)[0]
+				}
+			}
+			for id := range handed {
+				if _, ok := received[id]; !ok {
+					rep.event("seeds_claimed_by_a_get_the_client_gave_up_on", 1)
+				}
+			}
+			for id, u := range received {
 				rep.event("seeds_handed_out", 1)
 				if !deletedOK[id] {
-					rep.violation("finish-ack-never-delivered", fmt.Sprintf("seed %s (%s) was handed out by the HQ but its id is in no successful DELETE (still claimed: %d, still queued: %d)", id, u.Value, len(claimed), queued), w)
+					rep.violation("finish-ack-never-delivered", fmt.Sprintf("seed %s (%s) was received from the HQ but its id is in no successful DELETE (still claimed: %d, still queued: %d)", id, u, len(claimed), queued), w)
 				}
 			}
 		}
